@@ -102,6 +102,19 @@ struct Model {
 }
 
 pub fn run_history(h: &History, which: Oracles, prop: &str) -> Result<RunStats, Failure> {
+    // (safety oracle: fresh heap memory is recognisable while the history runs)
+    struct PoisonGuard(bool);
+    impl Drop for PoisonGuard {
+        fn drop(&mut self) {
+            if self.0 {
+                crate::alloc::set_poison(false);
+            }
+        }
+    }
+    let _poison = PoisonGuard(which.safety);
+    if which.safety {
+        crate::alloc::set_poison(true);
+    }
     let data = Rc::new(h.data.clone());
     let (mut reader, log, base) = build_reader_consumed(data.clone(), &h.feed, None, h.consumed_before);
     // the reader's stream starts behind the bytes consumed from the BufReader beforehand
@@ -266,6 +279,15 @@ pub fn run_history(h: &History, which: Oracles, prop: &str) -> Result<RunStats, 
                         bad!("io-error-kind", "step {} {:?}: parked error {:?} is not the injected one", $i, $op, e);
                     }
                 }
+            }
+            if which.safety && l.poisoned_offers != 0 {
+                bad!(
+                    "uninitialised-buffer-offered",
+                    "step {} {:?}: the slice handed to the source's read() held uninitialised heap memory ({} such read(s))",
+                    $i,
+                    $op,
+                    l.poisoned_offers
+                );
             }
             if which.reads {
                 if l.calls_after_terminal != 0 {
@@ -660,7 +682,7 @@ pub fn op_strategy(hostile: bool) -> BoxedStrategy<Op> {
         2 => any::<u16>().prop_map(Op::AdvanceUnchecked),
         2 => Just(Op::SetMark),
         1 => (-20i32..=20).prop_map(Op::SetMarkRel),
-        1 => prop_oneof![(1usize..=64), Just(4096usize)].prop_map(Op::SetChunk),
+        1 => prop_oneof![8 => (1usize..=64), 2 => Just(4096usize), 1 => Just(20_000usize), 1 => Just(100_000usize)].prop_map(Op::SetChunk),
         1 => Just(Op::CheckIoError),
         1 => (0u16..=40).prop_map(Op::ScanDigits),
         1 => (0u16..=40).prop_map(Op::ScanNextNewline),
